@@ -188,6 +188,9 @@ class Issue:
             self.fdata.seek(0)
             for line_num in range(1, lmin):
                 self.fdata.readline()
+        else:
+            # the file may have changed since an earlier scan in this process
+            linecache.checkcache(self.fname)
 
         tmplt = "%i\t%s" if tabbed else "%i %s"
         for line in range(lmin, lmax):
